@@ -15,6 +15,7 @@ import Rooc.Proofs.ExpLemmasFlatten
 import Rooc.Proofs.ExpLemmasNF
 import Rooc.Proofs.ExpLemmasSound
 import Rooc.Proofs.ExpLemmasDiv
+import Rooc.Proofs.ExpLemmasTruth
 namespace Rooc.Props.C10
 open Rooc Rooc.Exp Rooc.Sem
 
@@ -114,6 +115,63 @@ example : ∃ (e : Exp (Ext K)) (ρ : String → K) (v : K),
   · simp [LogicOperands01, LogicOperands01List, Is01, eval]
   · simp [eval, evalList, truthy_eq]
   · simp [simplify, naryCore, naryFlatten, naryScan, numTruthy]
+
+/-! ## simplify: what holds in logical positions (truth values) -/
+
+/-- PARTIAL, strictly stronger than `simplify_sound_partial`: only the and/or nodes standing in an
+*exact* position (root, operand of + - * / abs min max neg) need 0/1-valued operands; and/or nodes
+below not/xor/implies/iff/and/or are unconstrained (`ExactOK`, see `ExpLemmasTruth`). -/
+theorem simplify_sound_exact_partial (ρ : String → K) (e : Exp (Ext K)) (v : K)
+    (h : ExactOK ρ e) (hv : eval ρ e = some v) : eval ρ (simplify e) = some v :=
+  ((simplify_two_sorted ρ e).1 h v hv).1
+
+/-- `LogicOperands01` implies `ExactOK`. -/
+theorem exactOK_of_logicOperands01 (ρ : String → K) (e : Exp (Ext K))
+    (h : LogicOperands01 ρ e) : ExactOK ρ e := ExactOK_of_LogicOperands01 ρ e h
+
+/-- PARTIAL. Read as a formula, an expression keeps its truth value (and its definedness) under
+`simplify` whenever the and/or nodes that stand in exact positions strictly below it have 0/1
+operands (`TruthOK`); and/or nodes at the root and below logical connectives are unconstrained. -/
+theorem simplify_preserves_truthiness_partial (ρ : String → K) (e : Exp (Ext K)) (v : K)
+    (h : TruthOK ρ e) (hv : eval ρ e = some v) :
+    ∃ w, eval ρ (simplify e) = some w ∧ truthy w = truthy v := by
+  obtain ⟨w, h1, h2, _⟩ := (simplify_two_sorted ρ e).2 h v hv
+  exact ⟨w, h1, h2⟩
+
+/-- FULL for the decidable, assignment-independent class `truthShape` (no and/or node in an exact
+position strictly below the root — e.g. every pure propositional formula over arithmetic atoms):
+at EVERY assignment the truth value is preserved, with no hypothesis on the values. -/
+theorem simplify_preserves_truthiness_shape (e : Exp (Ext K)) (hs : truthShape e = true)
+    (ρ : String → K) (v : K) (hv : eval ρ e = some v) :
+    ∃ w, eval ρ (simplify e) = some w ∧ truthy w = truthy v :=
+  simplify_preserves_truthiness_partial ρ e v ((OK_of_shape ρ e).2 hs) hv
+
+/-- FULL for the decidable class `exactShape` (no and/or node in an exact position at all): the
+value is preserved at every assignment. -/
+theorem simplify_sound_shape (e : Exp (Ext K)) (hs : exactShape e = true)
+    (ρ : String → K) (v : K) (hv : eval ρ e = some v) : eval ρ (simplify e) = some v :=
+  simplify_sound_exact_partial ρ e v ((OK_of_shape ρ e).1 hs) hv
+
+/-- Outside these classes even the truth value changes: `(x and 1) + 1` is rewritten to `x + 1`;
+at `x = -1` the value goes from 2 (true) to 0 (false). -/
+theorem simplify_truthiness_counterexample :
+    ∃ (e : Exp (Ext K)) (ρ : String → K),
+      eval ρ e = some 2 ∧ eval ρ (simplify e) = some 0 ∧
+        truthy (2 : K) = true ∧ truthy (0 : K) = false ∧ truthShape e = false := by
+  refine ⟨.bin .add (.and [.var "x", .num (.fin 1)]) (.num (.fin 1)), fun _ => -1, ?_, ?_, ?_, ?_, ?_⟩
+  · simp [eval, evalList, binVal, truthy_eq]; norm_num
+  · simp [simplify, naryCore, naryFlatten, naryScan, numTruthy, addCore, eval, binVal]
+  · simp [truthy_eq]
+  · simp [truthy_eq]
+  · simp [truthShape, exactShape, isXorLike, isAndOr]
+
+/-- non-vacuity: `not ((x and 1) or y)` has non-0/1 and/or operands (so `LogicOperands01` fails at
+x = 2) but is in both classes. -/
+example : exactShape (.not (.or [.and [.var "x", .num (.fin 1)], .var "y"]) : Exp (Ext K)) = true ∧
+    ¬ LogicOperands01 (fun _ => (2 : K)) (.not (.or [.and [.var "x", .num (.fin 1)], .var "y"])) := by
+  constructor
+  · simp [exactShape, truthShape, truthShapeList]
+  · simp [LogicOperands01, LogicOperands01List, Is01, eval]
 
 /-! ## simplify: idempotence -/
 
